@@ -18,7 +18,7 @@ RULE = ('seeded generator: pupils (even and odd, <= grid) with FFT grids 6..48 p
 ASSUMPTIONS = ['both axes imply one propagation wavelength (isotropic dx*du, or commensurate anisotropic)',
                'pupil no larger than the FFT grid (the regime the FFT propagator supports)']
 PLAN = {'quick': {'gen': 8}, 'thorough': {'gen': 16, 'tests': 1, 'docs': 1}}
-REQUIRED_BUCKETS = ['defaults', 'grid:even', 'grid:odd', 'pupil:even', 'pupil:odd', 'pupil-parity!=grid-parity', 'os=1', 'os=2', 'os=3',
+REQUIRED_BUCKETS = ['defaults', 'scratch_shape:band', 'grid:even', 'grid:odd', 'pupil:even', 'pupil:odd', 'pupil-parity!=grid-parity', 'os=1', 'os=2', 'os=3',
                     'shape:none', 'shape:explicit', 'aniso', 'scratch:exact', 'scratch:larger', 'scratch:dirty',
                     'scratch:too-small', 'shape:too-large', 'tilted', 'dir:image->pupil', 'segmented', 'segmented:bbox-overlap', 'scratch:non-finite', 'canvas', 'shape:small-int', 'scalars:float32']
 REQUIRED_ANCHORS = ['anchor:_fft_shape', 'anchor:_fft2', 'anchor:_has_tilt', 'anchor:scratch_shape', 'probe:propagate_fft',
@@ -203,6 +203,21 @@ def workload(ctx, lentil):
         adv = lentil.scratch_shape(wl, dx, du, z, os_)
         ctx.check(tuple(int(x) for x in adv) == (G[0], G[1]), 'scratch:exact-accepted', 'scratch_shape|value',
                   'scratch_shape is not the FFT grid', dict(desc, got=[int(x) for x in adv]))
+        # one buffer for a band: the advertised shape for a LIST of wavelengths serves every one of them (it is the largest grid),
+        # in whatever order the list comes
+        if not aniso:
+            wl_f = float(wl)
+            band = [wl_f * f_ for f_ in (float(rng.uniform(1.05, 1.6)), 1.0, float(rng.uniform(1.7, 2.4)), float(rng.uniform(0.6, 0.95)))]
+            grids = [int(np.floor(b * float(z) * os_ / (float(np.asarray(dx, float).flat[0]) * float(np.asarray(du, float).flat[0])) + 0.5)) for b in band]
+            frac = [abs((b * float(z) * os_ / (float(np.asarray(dx, float).flat[0]) * float(np.asarray(du, float).flat[0]))) % 1.0 - 0.5) for b in band]
+            if min(frac) > 1e-6:
+                ctx.bucket('scratch_shape:band')
+                try:
+                    advb = tuple(int(x) for x in lentil.scratch_shape(band if i % 2 else np.array(band), dx, du, z, os_))
+                    ctx.check(advb == (max(grids), max(grids)), 'scratch:exact-accepted', 'scratch_shape|band',
+                              'scratch_shape for a list of wavelengths is not the largest of their FFT grids', dict(desc, band=band, got=list(advb), grids=grids))
+                except Exception as e:
+                    ctx.check(False, 'scratch:exact-accepted', f'scratch_shape|band|raises={type(e).__name__}', str(e), desc)
         scs = max(float(np.max(np.abs(ff))), 1e-300)
 
         def run_scratch(buf, label, bucket):
